@@ -611,7 +611,7 @@ def oracle_key(cls, text, head, g):
             return "C44/" + cls
         if g[4] == "0":
             return None          # a name containing \ { } is passed through verbatim by design
-        return "C44/latex:finiteset-left-brace"
+        return "C44/latex-finiteset-delimiter"
     if cls in ("unicode-not-rect", "unicode-width-field"):
         return "C44/" + cls if g[2] == "1" else "C44/unicode:non-ascii-name"
     if cls in ("stringbox-not-rect", "stringbox-width-field"):
@@ -653,6 +653,12 @@ def explore(ctx, drv, model, cases, search=False):
         for o in oracles[k]:
             cls, _, text = o.partition(":")
             key = oracle_key(cls, text, heads[k], g)
+            if cls == "stringbox-power-order":
+                # outside the statement of C44 (the box stays rectangular): reported as a note
+                note = "add_power stacks the lines of a multi-line exponent in reverse order (e.g. `%s`): rendering defect outside the property statement" % cases[i]
+                if not any(n.startswith("add_power stacks") for n in ctx.notes):
+                    ctx.notes.append(note)
+                continue
             if key is None:
                 frag["oracle_failures_outside_hypotheses_by_design"] = frag.get("oracle_failures_outside_hypotheses_by_design", 0) + 1
                 continue
@@ -709,7 +715,7 @@ def explore(ctx, drv, model, cases, search=False):
                     frag["sbml_fragment_roundtrip_ok"] += 1
                 else:
                     back = r[2:] if r.startswith("0:") else r
-                    ctx.violation("C44/sbml-roundtrip" + (":neg-infinity" if "(Inf -1)" in heads[k] else ""),
+                    ctx.violation("C44/sbml-roundtrip" + (":neg-infinity-base" if "(Pow (Inf -1)" in heads[k] else ""),
                                   "parse_sbml(sbml(e)) != e for `%s` inside the SBML fragment: sbml = %s, parsed back = %s" % (
                                       cases[i], show(lf.get("S")), show(back)),
                                   {"family": "C44", "case": cases[i], "impl": results[k][:2000], "model": m[:2000]})
